@@ -256,6 +256,15 @@ fn explicit_cases() -> Vec<(String, Vec<u8>, String)> {
             }
         }
     }
+    // commands that walk "the rest of the screen" under a SAUCE record that declares 1000 x 65535
+    for (ext, body) in [("ans", &b"\x1b[J"[..]), ("ans", &b"\x1b[1J\x1b[2J\x1b[K"[..]), ("seq", &b"\x8e"[..]), ("seq", &b"\x0e\x93"[..]), ("avt", &b"\x0c\x16\x07"[..]), ("pcb", &b"@CLS@"[..]), ("ata", &b"\x7d"[..])] {
+        for (t1, t2) in [(1000u16, 65535u16), (80, 65535)] {
+            let mut b = body.to_vec();
+            b.push(0x1A);
+            b.extend(sauce_record(1, 1, 0, t1, t2, 0, b"", b"20240101"));
+            v.push((format!("x.{ext}"), b, format!("{:?} under a SAUCE record {t1} x {t2}", String::from_utf8_lossy(body))));
+        }
+    }
     // iCE Draw: run length records with 16 bit counts behind a header that declares a small rectangle
     for (x2, y2) in [(79u16, 0u16), (0, 0), (79, 24), (79, 199)] {
         for records in [5usize, 50] {
